@@ -114,7 +114,7 @@ def oracle(it):
         got = [o[1]] if k == "scalar" else o[1]
         ok = len(vals) == len(got) and all(rel_ok(Fr(v) * f, g) for v, g in zip(vals, got))
         return ok and tuple(o[2]) == tuple(c["dst"]) and tuple(o[3]) == tuple(c["dim"]), name
-    if k == "via":
+    if k in ("via", "composite"):
         if o[0] == "raise":
             return False, name
         f = si.si_scale(c["src"], c["dim"]) / si.si_scale(c["dst"], c["dim"])
